@@ -105,6 +105,10 @@ pub fn run_corrupt(line: &str) -> String {
             let image: SimFs = sim.snapshot();
             image.overwrite(&PathBuf::from(&name), &data);
             let keys2 = keys.clone();
+            let openable = !name.ends_with(".rdb") || {
+                use raindb::verif_hooks::tables as vt;
+                vt::VTable::open(crate::suite_db::make_options(&image, last_cfg), &PathBuf::from(&name)).is_ok()
+            };
             let res = std::panic::catch_unwind(std::panic::AssertUnwindSafe(|| {
                 match Session::open(image.clone(), last_cfg) {
                     Err(e) => format!("open-{}|-|-", e),
@@ -116,9 +120,25 @@ pub fn run_corrupt(line: &str) -> String {
                         let d = s2.db().verif_dump();
                         let still = d.levels.iter().flatten().any(|f| name.ends_with(&format!("/{}.rdb", f.0)));
                         let gone = name.ends_with(".rdb") && !still;
+                        // second phase for table files: force a compaction of everything and read
+                        // again (a compaction must not turn an unreadable table into missing data)
+                        let mut phase2 = String::new();
+                        if name.ends_with(".rdb") {
+                            let level = d
+                                .levels
+                                .iter()
+                                .position(|fs| fs.iter().any(|f| name.ends_with(&format!("/{}.rdb", f.0))))
+                                .map(|l| l.to_string())
+                                .unwrap_or("-".to_string());
+                            s2.db().compact_range(None..None);
+                            s2.quiesce();
+                            let gets2: Vec<String> = keys2.iter().map(|k| s2.get(None, k)).collect();
+                            let scan2 = s2.scan_all(None);
+                            phase2 = format!("|{}|{}|{}|{}", openable as u8, level, gets2.join(","), scan2);
+                        }
                         s2.quiesce();
                         s2.close();
-                        format!("ok{}|{}|{}", if gone { "-compacted" } else { "" }, gets.join(","), scan)
+                        format!("ok{}|{}|{}{}", if gone { "-compacted" } else { "" }, gets.join(","), scan, phase2)
                     }
                 }
             }));
